@@ -756,7 +756,7 @@ theorem lpLoop_spec (s1 s2 : Bytes) (i : Nat) (st en : Int) (br : Bool) :
       · rename_i hab
         have hab' : a = b := by simpa using hab
         split
-        · exact lift _ _ _ hab' (.inr rfl)
+        · exact lift _ _ _ hab' (by cases br <;> simp)
         · split
           · exact lift _ _ _ hab' (.inl rfl)
           · exact lift _ _ _ hab' (.inl rfl)
